@@ -127,7 +127,7 @@ def run(ctx):
             msteps, tail = c08.model_steps(a)
             mseq = int(tail.split(" ")[0][4:])
             ctx.traces += 1
-            if msteps != steps or mseq != final_seq:
+            if msteps != steps or (final_seq is not None and mseq != final_seq):
                 bad = next((i for i, (x, y) in enumerate(zip(msteps, steps)) if x != y), len(steps))
                 ctx.mismatch("link", dict(events=tokens, first_differing_step=bad),
                              dict(step=msteps[bad] if bad < len(msteps) else None, seq=mseq),
